@@ -802,8 +802,11 @@ func (s *Server) handleRPCFormContract(stream net.Conn) error {
 	// update renter input basis to reflect our funding basis
 	if basis != req.Basis {
 		hostInputs := formationTxn.SiacoinInputs[len(req.RenterInputs):]
-		formationTxn.SiacoinInputs = formationTxn.SiacoinInputs[:len(req.RenterInputs)]
-		txnset, err := s.chain.UpdateV2TransactionSet([]types.V2Transaction{formationTxn}, req.Basis, basis)
+		// rebase a copy that only spends the renter's inputs: formationTxn must
+		// keep the host's inputs so that they are released if the update fails
+		renterTxn := formationTxn
+		renterTxn.SiacoinInputs = formationTxn.SiacoinInputs[:len(req.RenterInputs):len(req.RenterInputs)]
+		txnset, err := s.chain.UpdateV2TransactionSet([]types.V2Transaction{renterTxn}, req.Basis, basis)
 		if err != nil {
 			return errorBadRequest("failed to update renter inputs from %q to %q: %v", req.Basis, basis, err)
 		}
@@ -959,8 +962,11 @@ func (s *Server) handleRPCRefreshContract(stream net.Conn, partial bool) error {
 	// update renter inputs to reflect our chain state
 	if basis != req.Basis {
 		hostInputs := renewalTxn.SiacoinInputs[len(req.RenterInputs):]
-		renewalTxn.SiacoinInputs = renewalTxn.SiacoinInputs[:len(req.RenterInputs)]
-		updated, err := s.chain.UpdateV2TransactionSet([]types.V2Transaction{renewalTxn}, req.Basis, basis)
+		// rebase a copy that only spends the renter's inputs: renewalTxn must
+		// keep the host's inputs so that they are released if the update fails
+		renterTxn := renewalTxn
+		renterTxn.SiacoinInputs = renewalTxn.SiacoinInputs[:len(req.RenterInputs):len(req.RenterInputs)]
+		updated, err := s.chain.UpdateV2TransactionSet([]types.V2Transaction{renterTxn}, req.Basis, basis)
 		if err != nil {
 			return errorBadRequest("failed to update renter inputs from %q to %q: %v", req.Basis, basis, err)
 		}
@@ -1140,8 +1146,11 @@ func (s *Server) handleRPCRenewContract(stream net.Conn) error {
 	// update renter inputs to reflect our chain state
 	if basis != req.Basis {
 		hostInputs := renewalTxn.SiacoinInputs[len(req.RenterInputs):]
-		renewalTxn.SiacoinInputs = renewalTxn.SiacoinInputs[:len(req.RenterInputs)]
-		updated, err := s.chain.UpdateV2TransactionSet([]types.V2Transaction{renewalTxn}, req.Basis, basis)
+		// rebase a copy that only spends the renter's inputs: renewalTxn must
+		// keep the host's inputs so that they are released if the update fails
+		renterTxn := renewalTxn
+		renterTxn.SiacoinInputs = renewalTxn.SiacoinInputs[:len(req.RenterInputs):len(req.RenterInputs)]
+		updated, err := s.chain.UpdateV2TransactionSet([]types.V2Transaction{renterTxn}, req.Basis, basis)
 		if err != nil {
 			return errorBadRequest("failed to update renter inputs from %q to %q: %v", req.Basis, basis, err)
 		}
